@@ -309,6 +309,24 @@ class _Batch:
     def __init__(self, df):
         self.df = df
 
+    @property
+    def num_rows(self):
+        return len(self.df)
+
+    @property
+    def num_columns(self):
+        return len(self.df._c)
+
+    @property
+    def column_names(self):
+        return list(self.df._c)
+
+    def __len__(self):
+        return len(self.df)
+
+    def __getattr__(self, name):
+        raise Unsupported("pyarrow RecordBatch.%s is not modelled" % name)
+
     def to_pandas(self):
         return self.df.reset_index(drop=True)
 
